@@ -271,25 +271,14 @@ def tokenize_row(row: str) -> List[Tok]:
 
 
 def spec_group_count(row: str) -> Optional[int]:
-    """number of capture groups (= key length) the rule language gives a row:
-    one per `*`/`*/re/`, one for a trailing `~`, one per <name>; user parentheses capture only when
-    the row has no `*` at all (compile_row_regexp rewrites '(' to '(?:' only then)."""
-    toks = tokenize_row(row)
-    n = 0
-    has_star = "*" in row
-    for t in toks:
-        if t.cls in (T_STAR, T_STAR_RE, T_TILDE, T_NAMED):
-            n += 1
-        elif t.cls == T_GLUED_STAR and t.text.startswith("*"):
-            n += 1
-    if not has_star:
-        # user groups stay capturing
-        body = row
-        n += len(re.findall(r"\((?!\?)", body))
-    else:
-        # inside */re/ user parens were turned non-capturing as well
-        pass
-    return n
+    """number of capture groups (= key length) the rule language gives a row: the group count of the row's
+    specification regex (one per `*`/`*/re/`, one for a trailing `~`, one per <name>; user parentheses capture only when
+    the row has no `*` at all)"""
+    try:
+        pat, flags = spec_compile(row)
+        return re.compile(pat, flags).groups
+    except re.error:
+        return None
 
 
 def spec_reverse_placeholders(row: str, prefix: str) -> int:
@@ -309,6 +298,39 @@ def spec_reverse_placeholders(row: str, prefix: str) -> int:
 def regex_parses(rx: str) -> Optional[str]:
     try:
         re.compile(rx)
+        return None
+    except re.error as e:
+        return str(e)
+
+
+def spec_compile(row: str):
+    """the regex the rule language assigns to a row (specification; C07.R1 checks that compile_row_regexp's fragments
+    have these languages).  Returns (pattern, flags)."""
+    flags = 0
+    if "(?i)" in row:
+        row = row.replace("(?i)", "")
+        flags |= re.IGNORECASE
+    if "*" in row:
+        row = re.sub(r"\(([^\?])", r"(?:\1", row)
+        row = re.sub(r"\*/(\S+)/", r"(\1)", row)
+        row = re.sub(r"(^|\s)\*", r"\1([^\\s]+)", row)
+    row = re.sub(r"<(\w+)>", r"(?P<\1>\\w+)", row)
+    if row.endswith("~"):
+        row = row[:-1] + "(.+)"
+    elif row.endswith("..."):
+        row = row[:-3]
+    elif "~/" in row:
+        row = re.sub(r"~/(((?!~/).)+)/", r"\1", row)
+    else:
+        row += r"(?:\s|$)"
+    row = re.sub(r"\s+", r"\\s+", row)
+    return "^" + row, flags
+
+
+def row_regex_error(row: str) -> Optional[str]:
+    try:
+        pat, flags = spec_compile(row)
+        re.compile(pat, flags)
         return None
     except re.error as e:
         return str(e)
